@@ -368,6 +368,28 @@ func (w *c02World) aclAllows(t *c02Tok, reqNS, abs, op string, sudo bool, now ti
 	return res, why
 }
 
+// capsOf: the capability list the documentation promises for a namespace-qualified
+// path (sys/capabilities): the capabilities of the most specific matching pattern,
+// "deny" when a deny is set or nothing matches, "root" for a root token. ok=false:
+// outside the reference.
+func (w *c02World) capsOf(t *c02Tok, reqNS, abs string, now time.Time) ([]string, bool) {
+	if t.Root {
+		if strings.HasPrefix(reqNS, t.NS) {
+			return []string{"root"}, true
+		}
+		return []string{"deny"}, true
+	}
+	rules, _, _, ambiguous := w.rulesFor(t, now)
+	if ambiguous || strings.HasSuffix(abs, "/") {
+		return nil, false
+	}
+	caps, _, ok := c02Winner(rules, abs)
+	if !ok || caps["deny"] || len(caps) == 0 {
+		return []string{"deny"}, true
+	}
+	return c02SortedKeys(caps), true
+}
+
 // c02Decide applies the documented matching to one rule collection.
 func c02Decide(rules map[string]map[string]bool, abs, op, capName string, sudo bool) (string, string) {
 	caps, pat, ok := c02Winner(rules, abs)
